@@ -351,3 +351,48 @@ def unwrapped(e):
     if e[0] == "vfield" and e[2].endswith("Option::Some") and e[3] == 0:
         return e[1]
     return None
+
+
+def counter_start(prog, fn, k):
+    """k is a loop counter taken from the iterator the loop walks: component 0 of `enumerate().next()` (starts at 0), or the
+    component of `zip.next()` whose side of the zip is the range `s..` (starts at s). Returns the start, or None."""
+    k = strip_casts(k)
+    if not (k[0] == "tfield" and k[1][0] == "vfield" and k[1][1][0] == "call" and k[1][1][1].endswith("::next") and k[1][1][2]):
+        return None
+    nxt = k[1][1]
+    it = nxt[2][0]
+    if it[0] == "local":
+        it = prog.A(fn).init_expr(it[1])
+    while it is not None and it[0] == "call" and it[1].endswith("into_iter") and len(it[2]) == 1:
+        it = it[2][0]
+    if it is None or it[0] != "call":
+        return None
+    if it[1].endswith("Iterator::enumerate"):
+        return 0 if k[2] == 0 else None
+    if it[1].endswith("Iterator::zip") and len(it[2]) == 2 and k[2] in (0, 1):
+        side = it[2][k[2]]
+        if side[0] == "adt" and side[1].endswith("RangeFrom::RangeFrom"):
+            st = dict(side[2]).get("start")
+            if st is not None and st[0] == "int":
+                return st[1]
+    return None
+
+
+def sum_terms(e):
+    """Flatten a tree of additions (casts stripped) into its terms."""
+    e = strip_casts(e)
+    if e[0] == "bin" and e[1] == "Add":
+        return sum_terms(e[2]) + sum_terms(e[3])
+    return [e]
+
+
+def is_last_index_plus_position(prog, fn, v, want=1):
+    """v = last_index() + c + counter with c + (start of the counter) == want: the index of the counter-th new entry."""
+    terms = sum_terms(v)
+    last = [t for t in terms if t[0] == "call" and t[1].endswith("RaftLog::last_index")]
+    ints = [t for t in terms if t[0] == "int"]
+    rest = [t for t in terms if t not in last and t not in ints]
+    if len(last) != 1 or len(rest) != 1:
+        return False
+    st = counter_start(prog, fn, rest[0])
+    return st is not None and st + sum(t[1] for t in ints) == want
